@@ -323,6 +323,28 @@ fn dfa_from_regex(
         }
         inputs
     };
+    #[cfg(feature = "verif")]
+    {
+        let mut sym: Vec<String> = Vec::new();
+        for input in &regex.input_from_position {
+            let inp = Inp::from_input(input, subword_regexes, &mut subdfas, &mut subwords_cache)?;
+            sym.push(inputs.find(&inp).unwrap().verif_index().to_string());
+        }
+        crate::verif::emit(|| {
+            let follow: Vec<String> = followpos
+                .iter()
+                .map(|(pos, set)| format!("[{},{}]", pos, crate::verif::set_json(set)))
+                .collect();
+            format!(
+                r#"{{"ev":"sc_init","first":{},"follow":[{}],"sym":[{}],"end":{},"ninp":{}}}"#,
+                crate::verif::set_json(&regex.firstpos()),
+                follow.join(","),
+                sym.join(","),
+                regex.endmarker_position,
+                inputs.ids().count()
+            )
+        });
+    }
 
     let mut transitions: IndexMap<StateId, IndexMap<InpId, StateId>> = Default::default();
     let mut unmarked_states: HashSet<BTreeSet<Position>> = Default::default();
@@ -331,6 +353,11 @@ fn dfa_from_regex(
         let combined_state = state.clone();
         unmarked_states.remove(&combined_state);
         let from_combined_state_id = *state_id_from_set_of_positions.get(&combined_state).unwrap();
+        #[cfg(feature = "verif")]
+        crate::verif::emit(|| {
+            let set: Vec<String> = combined_state.iter().map(|p| p.to_string()).collect();
+            format!(r#"{{"ev":"sc_pop","id":{},"set":[{}]}}"#, from_combined_state_id, set.join(","))
+        });
         let state_transitions = transitions.entry(from_combined_state_id).or_default();
         for (inp_id, inp) in inputs.pairs() {
             let mut set_of_positions = RoaringBitmap::new();
@@ -345,6 +372,8 @@ fn dfa_from_regex(
             }
             if !set_of_positions.is_empty() {
                 let set_of_positions = BTreeSet::from_iter(set_of_positions);
+                #[cfg(feature = "verif")]
+                let verif_new = !state_id_from_set_of_positions.contains_key(&set_of_positions);
                 if !state_id_from_set_of_positions.contains_key(&set_of_positions) {
                     state_id_from_set_of_positions
                         .insert(set_of_positions.clone(), unallocated_state_id);
@@ -355,6 +384,18 @@ fn dfa_from_regex(
                     .get(&set_of_positions)
                     .unwrap();
                 state_transitions.insert(inp_id, *to_combined_state_id);
+                #[cfg(feature = "verif")]
+                crate::verif::emit(|| {
+                    let set: Vec<String> = set_of_positions.iter().map(|p| p.to_string()).collect();
+                    format!(
+                        r#"{{"ev":"sc_edge","from":{},"inp":{},"to":{},"set":[{}],"new":{}}}"#,
+                        from_combined_state_id,
+                        inp_id.verif_index(),
+                        to_combined_state_id,
+                        set.join(","),
+                        verif_new
+                    )
+                });
             }
         }
     }
@@ -370,6 +411,14 @@ fn dfa_from_regex(
         accepting_states
     };
 
+    #[cfg(feature = "verif")]
+    crate::verif::emit(|| {
+        format!(
+            r#"{{"ev":"sc_done","acc":{},"n":{}}}"#,
+            crate::verif::set_json(&accepting_states),
+            state_id_from_set_of_positions.len()
+        )
+    });
     let result = DFA {
         starting_state: *state_id_from_set_of_positions
             .get(&combined_starting_state)
